@@ -196,17 +196,6 @@ Proof. intros cap ps. apply history_transparent_from. apply sound_nil. Qed.
 End A.
 End CacheTransparent.
 
-Print Assumptions CacheTransparent.compile_regex_sound.
-Print Assumptions CacheTransparent.cache_transparent.
-Print Assumptions CacheTransparent.history_transparent.
-Print Assumptions CacheTransparent.history_cap_irrelevant.
-Print Assumptions CacheTransparent.compile_regex_length.
-Print Assumptions CacheTransparent.compile_regex_distinct.
-Print Assumptions CacheTransparent.compile_regex_cached.
-Print Assumptions CacheTransparent.history_length.
-Print Assumptions CacheTransparent.history_distinct.
-Print Assumptions CacheTransparent.history_sound.
-
 (* ================================================================================================ *)
 (* PART B — UTF-8 encoding preserves order                                                          *)
 (* ================================================================================================ *)
@@ -330,11 +319,6 @@ Corollary utf8_order_str_cmp : forall s t, Forall scalar s -> Forall scalar t ->
 Proof. exact utf8_order. Qed.
 End Utf8Order.
 
-Print Assumptions Utf8Order.utf8_encode_char_order.
-Print Assumptions Utf8Order.utf8_prefix_free.
-Print Assumptions Utf8Order.utf8_no_proper_prefix.
-Print Assumptions Utf8Order.utf8_order.
-
 (* ================================================================================================ *)
 (* PART C — --unique on rows with selections                                                        *)
 (* ================================================================================================ *)
@@ -444,6 +428,15 @@ Proof. intros H. unfold key. rewrite H. reflexivity. Qed.
 Lemma key_selection {E} (c : ctx E) : results c <> [] -> key c = KResults (map snd (results c)).
 Proof. intros H. unfold key, to_list. destruct (results c); [contradiction|reflexivity]. Qed.
 
+Lemma FOP_impl_in {A} (R S : A -> A -> Prop) : forall l,
+  (forall a b, In a l -> In b l -> R a b -> S a b) -> ForallOrdPairs R l -> ForallOrdPairs S l.
+Proof.
+  intros l HRS HR. induction HR as [|a l Ha Hl IH]; [constructor|]. constructor.
+  - apply Forall_forall. intros b Hb. apply HRS; [left; reflexivity|right; exact Hb|].
+    exact (proj1 (Forall_forall _ _) Ha b Hb).
+  - apply IH. intros x y Hx Hy. apply HRS; right; assumption.
+Qed.
+
 (* rows with or without selections; canonical keys; pairwise compatible member order *)
 Theorem dedup_canonical_rows : forall E (cs : list (ctx E)),
   (forall c, In c cs -> canonical_key (key c)) ->
@@ -468,15 +461,11 @@ Proof.
     intros a b c [ca [Ha ->]] [cb [Hb ->]] [cc [Hcc ->]] H1 H2.
     apply Hiff in H1; [|assumption|assumption]. apply Hiff in H2; [|assumption|assumption].
     apply Hiff; [assumption|assumption|]. rewrite H1. exact H2.
-  - pose proof (dedup_later_differs E cs []) as Hl.
-    induction Hl as [|a l Ha Hl IH]; [constructor|].
-    constructor.
-    + apply Forall_forall. intros b Hb Heq.
-      pose proof (proj1 (Forall_forall _ _) Ha b Hb) as Hba. cbn beta in Hba.
-      assert (Ht : ckey_eqb (key b) (key a) = true).
-      { apply Hiff; [apply Hin; right; exact Hb|apply Hin; left; reflexivity|symmetry; exact Heq]. }
-      rewrite Ht in Hba. discriminate Hba.
-    + apply IH. intros c Hi. apply Hin. right. exact Hi.
+  - apply (FOP_impl_in (fun a b => ckey_eqb (key b) (key a) = false)); [|apply dedup_later_differs].
+    intros a b Ha Hb Hba Heq.
+    assert (Ht : ckey_eqb (key b) (key a) = true).
+    { apply Hiff; [apply Hin; exact Hb|apply Hin; exact Ha|symmetry; exact Heq]. }
+    rewrite Ht in Hba. discriminate Hba.
   - intros c Hi. destruct (dedup_complete E P Hrefl cs [] c Hok Hi) as [H|[c' [Hc' H]]]; [discriminate H|].
     exists c'. split; [exact Hc'|]. apply Hiff; [exact Hi|apply Hin; exact Hc'|exact H].
 Qed.
@@ -497,13 +486,27 @@ Proof.
   - intros c c' Hi Hi'. rewrite (Hkey c Hi), (Hkey c' Hi'). cbn [compat_order]. apply Hso; assumption.
   - split; [exact H1|].
     assert (Hin : forall c, In c (dedup_from E [] cs) -> In c cs) by (intros c; apply dedup_In).
-    induction H2 as [|a l Ha Hl IH]; [constructor|]. constructor.
-    + apply Forall_forall. intros b Hb Heq. apply (proj1 (Forall_forall _ _) Ha b Hb).
-      rewrite (Hkey a), (Hkey b); [rewrite Heq; reflexivity|apply Hin; right; exact Hb|apply Hin; left; reflexivity].
-    + apply IH. intros c Hi. apply Hin. right. exact Hi.
+    apply (FOP_impl_in (fun a b : ctx E => key a <> key b)); [|exact H2].
+    intros a b Ha Hb Hab Heq. apply Hab.
+    rewrite (Hkey a (Hin a Ha)), (Hkey b (Hin b Hb)), Heq. reflexivity.
 Qed.
 End UniqueSelected.
 
+(* ================================================================================================ *)
+Print Assumptions CacheTransparent.compile_regex_sound.
+Print Assumptions CacheTransparent.cache_transparent.
+Print Assumptions CacheTransparent.history_transparent.
+Print Assumptions CacheTransparent.history_cap_irrelevant.
+Print Assumptions CacheTransparent.compile_regex_length.
+Print Assumptions CacheTransparent.compile_regex_distinct.
+Print Assumptions CacheTransparent.compile_regex_cached.
+Print Assumptions CacheTransparent.history_length.
+Print Assumptions CacheTransparent.history_distinct.
+Print Assumptions CacheTransparent.history_sound.
+Print Assumptions Utf8Order.utf8_encode_char_order.
+Print Assumptions Utf8Order.utf8_prefix_free.
+Print Assumptions Utf8Order.utf8_no_proper_prefix.
+Print Assumptions Utf8Order.utf8_order.
 Print Assumptions UniqueSelected.ckey_eqb_refl.
 Print Assumptions UniqueSelected.ckey_eqb_compat_iff.
 Print Assumptions UniqueSelected.ckey_eqb_canonical_iff.
